@@ -190,7 +190,8 @@ def heap_layer(v, tier, seed):
     # (b) small segment capacity C = 4: the segment arithmetic (3 segments) with 5-6 timers.  Model only:
     #     C is a compile-time constant of the library; the real C = 8 reaches 5 segments in (d).
     small = [("c4", 5, "{0, 1}", '"eq"', 4, 3)] if tier == "quick" else \
-            [("c4", 5, "{0, 1}", '"eq"', 4, 3), ("c4n6", 6, "{0, 1}", '"eq"', 4, 3), ("c4le", 5, "{0, 1}", '"le"', 4, 3)]
+            [("c4", 5, "{0, 1}", '"eq"', 4, 3), ("c4n6", 6, "{0, 1}", '"eq"', 4, 3), ("c4k3", 5, "{0, 1, 2}", '"eq"', 4, 3),
+             ("c4le4", 4, "{0, 1}", '"le"', 4, 3)]
     jobs = []
     for tag, nt, keys, le, c, maxseg in small:
         cfg = cfg_from("TimerHeap_q.cfg", "TimerHeap_%s.cfg" % tag, NT=str(nt), Keys=keys, Pairs=le, C=str(c), MaxSeg=str(maxseg))
